@@ -41,6 +41,8 @@ impl<'a> SocketPeek<'a> {
 
             // clear the io_flag
             self.io_data.io_flag.store(0, Ordering::Relaxed);
+            #[cfg(may_verif)]
+            crate::verif::syscall();
 
             // finish the read operation
             match recv(self.io_data.fd, self.buf, MsgFlags::MSG_PEEK) {
